@@ -321,8 +321,10 @@ impl Runner {
             "reset" => self.do_reset(),
             "sweep" => self.do_sweep(st),
             "concurrent" => crate::conc::do_concurrent(self, st),
+            "conc_sweep" => crate::conc::do_conc_sweep(self, st),
             "layout" => crate::layout::do_layout(self, st),
             "fsck" => self.emit_fsck(),
+            "probe_write" => self.do_probe_write(st),
             other => panic!("unknown step op {other}"),
         }
     }
@@ -334,14 +336,21 @@ impl Runner {
         self.log.emit(json!({"ev": "src", "tree": tree::tree_json(&self.src_tree)}));
     }
 
-    fn do_save(&mut self) {
+    pub fn do_save(&mut self) {
         let dst = self.fresh("saved");
         copy_dir(&self.arch, &dst).expect("save archive");
         self.saved.push((dst, self.src_tree.clone()));
         self.log.emit(json!({"ev": "save"}));
     }
 
-    fn do_reset(&mut self) {
+    pub fn do_unsave(&mut self) {
+        if let Some((dir, _)) = self.saved.pop() {
+            tree::remove_tree(&dir);
+        }
+        self.log.emit(json!({"ev": "unsave"}));
+    }
+
+    pub fn do_reset(&mut self) {
         let (dir, t) = self.saved.last().cloned().expect("reset without save");
         tree::remove_tree(&self.arch);
         copy_dir(&dir, &self.arch).expect("restore saved archive");
@@ -362,19 +371,26 @@ impl Runner {
     }
 
     /// Run a backup of the current source. Returns the issued verbs of the call.
-    pub fn do_backup(&mut self, st: &Value, plan: Plan, sched: Option<Arc<Sched>>) -> Vec<String> {
+    pub fn do_backup(&self, st: &Value, plan: Plan, sched: Option<Arc<Sched>>) -> Vec<String> {
+        self.do_backup_from(st, plan, sched, &self.src, &self.src_tree, false)
+    }
+
+    /// Back up the tree at `src_dir` (whose projection is `src_tree`). With `own_tree` the call
+    /// event carries the tree (actors of a concurrent step have their own sources).
+    pub fn do_backup_from(&self, st: &Value, plan: Plan, sched: Option<Arc<Sched>>, src_dir: &Path, src_tree: &[Node], own_tree: bool) -> Vec<String> {
         let actor = st.get("actor").and_then(|x| x.as_str()).unwrap_or("bk").to_string();
         let (h, m, s, excl, owner) = Self::backup_options(st);
-        let src_paths: BTreeSet<Vec<Vec<u8>>> = self.src_tree.iter().map(|n| n.p.clone()).collect();
+        let src_paths: BTreeSet<Vec<Vec<u8>>> = src_tree.iter().map(|n| n.p.clone()).collect();
         let injected = plan.crash_at.is_some() || !plan.fail.is_empty() || plan.fail_p > 0.0;
         self.log.emit(json!({"ev": "call", "actor": actor, "fn": "backup", "H": h.min(1_000_000_000), "M": m.min(1_000_000_000),
             "S": s.min(1_000_000_000), "excl": excl, "match": match_facts(&excl, &src_paths), "owner": owner,
-            "bands": [], "dry": false, "injected": injected}));
+            "bands": [], "dry": false, "injected": injected, "own_tree": own_tree,
+            "tree": if own_tree { tree::tree_json(src_tree) } else { json!([]) }}));
         let icpt = ActorIcpt::new(&actor, &self.arch, self.log.clone(), plan, sched.clone());
         let mon = TestMonitor::arc();
         let changes: Arc<Mutex<Vec<Value>>> = Arc::new(Mutex::new(vec![]));
         let t = self.transport(icpt.clone());
-        let src = self.src.clone();
+        let src = src_dir.to_path_buf();
         let mon2 = mon.clone();
         let ch2 = changes.clone();
         let excl2 = excl.clone();
@@ -419,14 +435,14 @@ impl Runner {
         icpt.issued().0
     }
 
-    pub fn do_delete(&mut self, st: &Value, plan: Plan, sched: Option<Arc<Sched>>) -> Vec<String> {
+    pub fn do_delete(&self, st: &Value, plan: Plan, sched: Option<Arc<Sched>>) -> Vec<String> {
         let actor = st.get("actor").and_then(|x| x.as_str()).unwrap_or("gc").to_string();
         let bands: Vec<u32> = st.get("bands").and_then(|x| x.as_array()).map(|a| a.iter().filter_map(|x| x.as_u64().map(|n| n as u32)).collect()).unwrap_or_default();
         let dry = st.get("dry").and_then(|x| x.as_bool()).unwrap_or(false);
         let break_lock = st.get("break_lock").and_then(|x| x.as_bool()).unwrap_or(false);
         let injected = plan.crash_at.is_some() || !plan.fail.is_empty() || plan.fail_p > 0.0;
         self.log.emit(json!({"ev": "call", "actor": actor, "fn": "delete", "H": 0, "M": 0, "S": 0, "excl": [], "match": [], "owner": true,
-            "bands": bands, "dry": dry, "injected": injected}));
+            "bands": bands, "dry": dry, "injected": injected, "own_tree": false, "tree": []}));
         let icpt = ActorIcpt::new(&actor, &self.arch, self.log.clone(), plan, sched.clone());
         let mon = TestMonitor::arc();
         let t = self.transport(icpt.clone());
@@ -652,6 +668,23 @@ impl Runner {
             "dest_unchanged": true, "outside_unchanged": true, "ms": out.ms}));
     }
 
+    /// Direct contract probe of the transport: one write through the hooked transport.
+    fn do_probe_write(&mut self, st: &Value) {
+        let path = st["path"].as_str().unwrap().to_string();
+        let content: Vec<u8> = serde_json::from_value(st["content"].clone()).unwrap_or_default();
+        let mode = if st.get("mode").and_then(|x| x.as_str()) == Some("over") {
+            conserve::transport::WriteMode::Overwrite
+        } else {
+            conserve::transport::WriteMode::CreateNew
+        };
+        let icpt = ActorIcpt::new("probe", &self.arch, self.log.clone(), Plan::default(), None);
+        let mon = TestMonitor::arc();
+        let t = self.transport(icpt);
+        let out = run_call(&self.rt_flavor, &mon, || async move { t.write(&path, &content, mode).await.map_err(|e| err_name(&e)) });
+        self.log.emit(json!({"ev": "note", "what": "probe_write", "res": out.res}));
+        self.emit_fsck();
+    }
+
     /// Damage one archive file. `path` is archive-relative; how: delete | trunc0 | half | garbage | bitflip
     fn do_damage(&mut self, st: &Value) {
         let path = st["path"].as_str().unwrap().to_string();
@@ -740,9 +773,15 @@ impl Runner {
         // also "crash after the last op" is just the completed run (done above)
         if sample > 0 && cands.len() > sample {
             let mut x = seed.wrapping_mul(0x9E3779B97F4A7C15) | 1;
-            let mut picked = Vec::new();
-            let mut pool = cands.clone();
+            // stratified: the prologue (lock check, band creation, head, block listing) and the
+            // epilogue (last hunk, tail / lock release) are always taken; the middle is sampled
+            let last = verbs.len().saturating_sub(3);
+            let mut picked: Vec<(usize, String)> = cands.iter().filter(|(k, w)| (*k <= 9 || *k >= last) && (w == "crash" || w == "crash_empty" || w == "Other")).cloned().collect();
+            let mut pool: Vec<(usize, String)> = cands.iter().filter(|c| !picked.contains(c)).cloned().collect();
             for _ in 0..sample {
+                if pool.is_empty() {
+                    break;
+                }
                 x ^= x << 13;
                 x ^= x >> 7;
                 x ^= x << 17;
@@ -773,10 +812,7 @@ impl Runner {
             self.run_steps(&then);
             self.do_reset();
         }
-        if let Some((dir, _)) = self.saved.pop() {
-            tree::remove_tree(&dir);
-        }
-        self.log.emit(json!({"ev": "unsave"}));
+        self.do_unsave();
         if st.get("finally_run").and_then(|x| x.as_bool()).unwrap_or(false) {
             if is_delete {
                 self.do_delete(&base, Plan::default(), None);
